@@ -43,7 +43,8 @@ Print Assumptions C16_mesh3d_quad_centroid_is_embedded_2d_centroid.
 
 (* vertex clean-up of open polylines: the 3D routine (generated from the source) is the same keep-if-corner scan as the 2D one, with the
    test |(a - v) x (n - v)| >= tolerance, and on plane-embedded data the siblings keep the same vertices *)
-From LBG Require Import G9_clean C15_polyline C16_polyline.
+From LBG Require Import G9_clean C15_polyline C16_polyline C16_join.
+Import ListNotations.
 Theorem C16_polyline3d_remove_colinear_is_the_scan : forall qsqrt (p : Polyline3R) tol,
   let L := pl3_vertices p in (3 <= length L)%nat -> length L <> 3%nat ->
   pl3_vertices (Polyline3D_remove_colinear_vertices qsqrt p tol)
@@ -67,6 +68,36 @@ Print Assumptions C16_polyline_siblings_keep_the_same_vertices.
 
 (* the conclusion on a concrete chain in a tilted plane (3-4-5 frame), evaluated with the executable root: both siblings drop the two redundant
    vertices and keep the corners *)
+(* joined meshes (generated Mesh2D.join_meshes / Mesh3D.join_meshes, any number of meshes): vertices are concatenated, the faces of each
+   mesh are shifted by the vertex counts of ALL the meshes before it, every shifted index points at its own vertex, and the 2D and 3D
+   routines give the same face lists for siblings (same faces, as many vertices) *)
+Theorem C16_joined_mesh_siblings_have_the_same_faces : forall (m2 : list Mesh2R) (m3 : list Mesh3R),
+  map (fun m => (length (m2_vertices m), m2_faces m)) m2 = map (fun m => (length (m3_vertices m), m3_faces m)) m3 ->
+  m2_faces (Mesh2D_join_meshes m2) = m3_faces (Mesh3D_join_meshes m3).
+Proof. exact joined_siblings_have_the_same_faces. Qed.
+Print Assumptions C16_joined_mesh_siblings_have_the_same_faces.
+
+Theorem C16_joined_mesh_is_the_shifted_concatenation : forall ms,
+  m3_vertices (Mesh3D_join_meshes ms) = concat (map m3_vertices ms) /\
+  m3_faces (Mesh3D_join_meshes ms) = shifted_faces V3 0 (parts3 ms).
+Proof. exact mesh3_join_spec. Qed.
+Print Assumptions C16_joined_mesh_is_the_shifted_concatenation.
+
+Theorem C16_joined_mesh_indices_point_at_their_vertices : forall (pre post : list Mesh3R) (m : Mesh3R) (d : V3) fc i,
+  In fc (m3_faces m) -> (0 <= i < py_len (m3_vertices m))%Z ->
+  let J := Mesh3D_join_meshes (pre ++ m :: post) in
+  let off := py_len (concat (map m3_vertices pre)) in
+  In (map (fun j => j + off)%Z fc) (m3_faces J) /\
+  nth (Z.to_nat (i + off)) (m3_vertices J) d = nth (Z.to_nat i) (m3_vertices m) d.
+Proof. exact joined_index_points_at_its_vertex. Qed.
+Print Assumptions C16_joined_mesh_indices_point_at_their_vertices.
+
+(* three meshes: the third one's face is shifted by the vertices of BOTH meshes before it *)
+Example C16_join_three_concrete :
+  let t := mkMesh3 [mkV3 0 0 0; mkV3 1 0 0; mkV3 0 1 0] [[0; 1; 2]%Z] in
+  m3_faces (Mesh3D_join_meshes [t; t; t]) = [[0; 1; 2]; [3; 4; 5]; [6; 7; 8]]%Z.
+Proof. vm_compute. reflexivity. Qed.
+
 Example C16_polyline_siblings_concrete :
   let pl := mkPlane (mkV3 0 (3 # 5) (4 # 5)) (mkV3 1 2 3) ((3 # 5) * 2 + (4 # 5) * 3) (mkV3 1 0 0) (mkV3 0 (4 # 5) (-3 # 5)) in
   let L := [mkV2 0 0; mkV2 1 0; mkV2 2 0; mkV2 2 1; mkV2 2 2; mkV2 0 2] in
